@@ -637,6 +637,11 @@ fn build_date_to(pair: Pair<Rule>, from: ds::Date) -> Result<ds::Date> {
                 }
                 ds::Date::Fixed { mut year, mut month, day } => {
                     if day > daynum {
+                        if month == ds::Month::December && year == Some(9999) {
+                            // The range would end after the last supported date
+                            return Ok(ds::Date::Fixed { year, month, day: 31 });
+                        }
+
                         month = month.next();
 
                         if month == ds::Month::January {
